@@ -123,8 +123,10 @@ def plan(ctx):
             out.append((name, "bm"))
         if c.family == "reed_muller" and c.params["m"] <= (5 if ctx.thorough else 4) and k <= 16:
             out.append((name, "reed"))
-    if not ctx.thorough:
-        # quick tier: at most 5 instances per (family, decoder), spread over the catalogue order
+    if True:
+        # quick tier: at most 7 instances per (family, decoder), spread over the catalogue order; thorough: at most 30 (the catalogue has
+        # several hundred instances - all of them with 20000 words each exhausted the memory of the sandbox)
+        cap = 30 if ctx.thorough else 7
         byk = {}
         for name, kind in out:
             byk.setdefault((dd[name]["c"].family, kind), []).append((name, kind))
@@ -135,11 +137,11 @@ def plan(ctx):
                 tag = str(dd[item[0]]["c"].params.get("info", ""))
                 if tag not in seen_info:
                     seen_info.add(tag); chosen.append(item)
-            step = max(1, len(lst) // 4)
+            step = max(1, len(lst) // (cap - 3))
             for item in lst[1::step]:
-                if item not in chosen and len(chosen) < 7:
+                if item not in chosen and len(chosen) < cap:
                     chosen.append(item)
-            out += chosen[:7]
+            out += chosen[:cap]
     return out
 
 
@@ -169,7 +171,7 @@ def corr(ctx):
         if name not in defined:
             ops.append(Op(c01.defcode_line(c), "ok", nontrivial=False))
             defined.add(name)
-        cases = words_for(ctx, enc, n, k, t, 20000 if ctx.thorough else 4000)
+        cases = words_for(ctx, enc, n, k, t, 8000 if ctx.thorough else 4000)
         cfg = {"inst": name, "family": c.family, "decoder": kind}
         if kind in ("ml", "syn", "ham", "rminv"):
             extra = arbitrary_words(ctx, n, 12 if ctx.thorough else 10, 60 if ctx.thorough else 20) if kind in ("ml", "syn", "rminv") else []
